@@ -62,6 +62,8 @@ func runC16(c *Ctx) {
 	c.Rule("C16.O14", "E4", "ClientConn.onResponse: with no request left the read deadline is set on both edges of IdleConnTimeout > 0 (idle timeout, or cleared: the answered request's deadline must not survive); the next pipelined request's deadline is armed only on the Timeout > 0 edge (with no timeout configured there is no deadline to arm, and the send time itself is already in the past)", 2)
 	c.Rule("C16.O15", "E4", "the WebSocket keep-alive is renewed by every message: the renewal in handleWsMessage is guarded by KeepaliveTime > 0 and by nothing that depends on the clock or on earlier renewals", 1)
 	c16Round5(c)
+	c.Rule("C16.O16", "E4", "a client request's deadline is armed on the connection that is read: ClientConn.Do sets the read deadline on ClientConn.conn on the Timeout > 0 edge both for a request on an open connection and for the request that dials (a deadline set on the std connection before the transfer to the poller is lost with it)", 1)
+	c16ClientDeadline(c)
 	c.Rule("C16.O6", "E5,E4", "keep-alive renewal sites exist and pass time.Now().Add(<engine>.KeepaliveTime)", 7)
 
 	L := c.Locks()
@@ -900,4 +902,30 @@ func c16Round5(c *Ctx) {
 		}
 		c.Cond(bad == "", "C16.O15", fnKey(c.P, fn, "renewed by every message"), c.FnPos(fn), "guarded by KeepaliveTime > 0 only", bad)
 	}
+}
+
+// c16ClientDeadline: O16.
+func c16ClientDeadline(c *Ctx) {
+	fn := c.Fn("C16.O16", "(*nbhttp.ClientConn).Do")
+	if fn == nil {
+		return
+	}
+	// Do's work is in a closure handed to the client executor
+	n := 0
+	for _, g := range ir.WithClosures(fn) {
+		gi := c.P.Info(g)
+		for _, cs := range c.P.Calls(g, func(name string, _ ir.CallSite) bool { return strings.HasSuffix(name, ".SetReadDeadline") }) {
+			if !cs.Common.IsInvoke() || c.P.LoadedField(ir.Resolve(cs.Common.Value)) != "nbhttp.ClientConn.conn" {
+				continue
+			}
+			if gi.HasFact(cs.In, func(ft ir.Fact) bool {
+				cmp, ok := ir.DecodeIntCmp(ft.Cond)
+				return ok && cmp.Holds(1) == ft.Truth && cmp.Holds(0) != ft.Truth
+			}) {
+				n++
+			}
+		}
+	}
+	c.Cond(n >= 2, "C16.O16", fnKey(c.P, fn, "deadline on ClientConn.conn on both paths"), c.FnPos(fn), fmt.Sprintf("%d SetReadDeadline(c.conn) site(s) on the Timeout > 0 edge", n),
+		fmt.Sprintf("ClientConn.Do arms the request's read deadline on ClientConn.conn at %d site(s); the open-connection path and the dialing path each need one: the deadline the dialing path sets on the std connection is lost when NBConn duplicates the descriptor and closes it, so Timeout is not enforced for the request that dials", n))
 }
